@@ -30,6 +30,18 @@ REG_ASSUME = [
     "instantiated monotonicity-of-multiplication lemmas are arithmetic identities, not checked by a second tool",
 ]
 
+RD_ASSUME = [
+    "the wrapped source obeys the C11 interface contract (read(k): next min(k, remaining) samples of `audio`, None when "
+    "nothing remains, AudioIOError when not open; rewind(): back to 0); every concrete source kind is verified to "
+    "implement it (C11) and each wrapper is verified to implement it again for its own view, which is what composes the layers",
+    "hop_size = int(hop_dur*sr) >= 1 (a hop shorter than one sample is outside the statement; noted in DESIGN C10)",
+    "float products read as real arithmetic with exact int()/round()",
+    "generator semantics of Python: each next() runs the body to the following yield; a finished generator keeps "
+    "raising StopIteration",
+    "recorder cache: the list of blocks is abstracted to (length, concatenation) with append/join as the ghost updates",
+    "exact polynomial rewriting (pyvc/nl.py) and instantiated multiplication-monotonicity lemmas",
+]
+
 REGISTRY = {
     "C01": {"module": "props.tokenizer", "units": ["lemmas", "process", "post_process", "iter_tokens"],
             "witness": "tok", "assumptions": TOK_ASSUME},
@@ -44,6 +56,10 @@ REGISTRY = {
                 "for the delivered-token rule only (DESIGN 5, C04)"]},
     "C08": {"module": "props.tokenizer", "units": ["lemmas", "process", "post_process", "iter_tokens", "tokenize"],
             "witness": "tok", "assumptions": TOK_ASSUME},
+    "C10": {"module": "props.readers", "units": ["limiter", "fixed", "overlap_iter", "overlap_misc", "audioreader"],
+            "witness": "reader", "assumptions": RD_ASSUME},
+    "C19": {"module": "props.readers", "units": ["limiter", "overlap_iter", "overlap_misc", "recorder", "replay_lemma", "audioreader"],
+            "witness": "reader", "assumptions": RD_ASSUME},
     "C11": {"module": "props.sources", "units": ["buffer_init", "buffer_read", "buffer_position", "file_read", "file_open"],
             "witness": "source", "assumptions": [
                 "library models (assumed contracts): binary stream.read(k) / wave.readframes(k) return the next "
